@@ -1018,6 +1018,13 @@ fn pool_census(cfg: &Cfg) {
         }));
         objs.push(o);
     }
+    if cfg.opt("dbg", 0) == 1 {
+        // an observer formats the scheduler's Debug text (it takes the thread list and every busy flag) while the others schedule
+        hs.push(spawn(move || {
+            let text = format!("{:?}", scheduler());
+            rt::outcome(format!("dbg-len={}", text.len().min(1)));
+        }));
+    }
     for (i, h) in hs.into_iter().enumerate() {
         join(h, &format!("sched{}", i));
     }
